@@ -170,6 +170,28 @@ def check(prog, rep, tier):
             seenw[name] = 'ok'
             rep.ok('R03.c', name, file='yabgp/core/protocol.py', line=common.row_line(r))
 
+    # the hold time we advertise is the configured one - the same operand negotiate_hold_time takes the minimum with;
+    # advertising anything else makes the two ends compute different hold times
+    so = prog.func('yabgp.core.protocol.BGP.send_open')
+    octor = [n for n in ast.walk(so.node) if isinstance(n, ast.Call) and src_of(n.func).split('.')[-1] == 'Open']
+    hk = None
+    for c in octor:
+        for k in c.keywords:
+            if k.arg == 'hold_time':
+                hk = k.value
+    if hk is None:
+        rep.undecided('R03.a', 'advertised-hold', file=so.file, line=so.node.lineno,
+                      found='no Open(hold_time=...) constructor call in send_open')
+    else:
+        txt = common.unalias(so.node, hk)
+        if txt.startswith(('CONF.', 'cfg.CONF.')):
+            rep.ok('R03.a', 'advertised-hold', file=so.file, line=hk.lineno, found=txt)
+        else:
+            rep.bad('R03.a', 'advertised-hold', file=so.file, line=hk.lineno, func=so.qualname,
+                    found='the OPEN advertises hold_time = %s, not the configured value: after a session that negotiated '
+                          'less, the peer is told the old value while the timers run from the configuration' % txt,
+                    expected='CONF.time.hold_time', key='advertised-hold')
+
     # receiving a message never touches the keepalive timer: our KEEPALIVEs go out every H/3 counted from the
     # previous one, a restart on reception stretches the gap
     seenk = {}
